@@ -74,3 +74,32 @@ func VerifC18PosMapHostile() {
 	rt.Check(got == nil && err != nil, "truncated map is an error")
 	rt.Reach("c18.posmap.hostile")
 }
+
+// VerifC18PosMapLongNames: position maps whose database names are at and
+// around the longest file name (255 bytes), and maps with many entries.
+func VerifC18PosMapLongNames() {
+	m := map[string]ltx.Pos{}
+	var names []string
+	if rt.Choose("shape", 2) == 0 {
+		n := []int{254, 255, 256, 1000}[rt.Choose("name.len", 4)]
+		names = append(names, string(rt.Bytes("long.name", n)))
+	} else {
+		for i := 0; i < 40; i++ { // many entries, distinct concrete names
+			names = append(names, "db"+string(rune('A'+i%26))+string(rune('a'+i/26)))
+		}
+	}
+	for _, name := range names {
+		m[name] = ltx.Pos{TXID: ltx.TXID(rt.U64("txid")), PostApplyChecksum: ltx.Checksum(rt.U64("chksum"))}
+	}
+	var w rt.Buf
+	rt.Check(WritePosMapTo(&w, m) == nil, "WritePosMapTo succeeds")
+	r := &rt.SplitReader{Data: w.B, Mode: rt.Choose("split.mode", 2)}
+	got, err := ReadPosMapFrom(r)
+	rt.Check(err == nil && len(got) == len(m), "a position map the writer produces is accepted by the reader")
+	for _, name := range names {
+		v, ok := got[name]
+		rt.Check(ok && v == m[name], "every entry reads back identical")
+	}
+	rt.Check(r.Pos == len(w.B), "decoder consumes exactly the encoding")
+	rt.Reach("c18.posmap.longnames")
+}
